@@ -1,27 +1,8 @@
-import Verif.Proto
-import Verif.Model.ExitCode
-import Verif.Gen.ExitTable
-open Verif
+import Verif.Drv.ExitCode
 
-/-- `exit`: `scheme|listOnly filesFound discoverError anyFail anyFixed anyTriggered` → `result code`. -/
-def stepExit (line : String) : String :=
-  open Verif.Model.ExitCode in
-  match Proto.fields line with
-  | [s, bits] =>
-    let b := bits.trimAscii.toString.toList.map (· == '1')
-    match b with
-    | [a, b, c, d, e, f] =>
-      let o : Obs := ⟨a, b, c, d, e, f⟩
-      let r := Verif.Gen.ExitTable.flow.finalResult o
-      let sch := if s.trimAscii.toString == "minimal" then Scheme.minimal else Scheme.dflt
-      match lookup Verif.Gen.ExitTable.codeTable sch r with
-      | some c => s!"{repr r} {c}"
-      | none => "no-entry"
-    | _ => "bad-op"
-  | _ => "bad-op"
-
+/-- model name → request handler (one request line in, one answer line out). -/
 def models : List (String × (String → String)) :=
-  [("exit", stepExit)]
+  [("exit", Verif.Drv.ExitCode.step)]
 
 partial def loop (h : IO.FS.Stream) (out : IO.FS.Stream) (f : String → String) : IO Unit := do
   let line ← h.getLine
